@@ -248,6 +248,14 @@ func checkC11(c *Ctx) {
 	c.Rule("C11-R23", "text in a legacy 8-bit charset arrives with its top bits: the Unix ttys enter raw mode through term.MakeRaw, or clear ISTRIP among the input flags when they set the mode by hand")
 	c.Expect("C11-R23", 2)
 	checkRawModeIsEightBitClean(c, p, "C11-R23")
+	c.Rule("C11-R24", "without loss: an event ChannelEvents has taken from the queue is sent on, or the function returns for good, before it takes another (a forwarder parked in PollEvent after its quit channel closed swallows the next character; = C05-R7)")
+	c.Expect("C11-R24", 1)
+	c.asRule("C05-R7", "C11-R24", func() {
+		c.asRule("C05-R5", "C11-R24", func() { c05Channel(c, p) })
+	})
+	c.Rule("C11-R25", "focus-in and focus-out reports arrive as focus events: no key table assigns ESC [ I or ESC [ O to a key (the key matcher runs before the focus parser), and keys that merely share a prefix with them are held apart (= C02-R12)")
+	c.Expect("C11-R25", 40)
+	recogniserConflicts(c, p, buildDB(c, p), "C11-R25")
 	pr := p.Fn("tcell:(*tScreen).parseRune")
 	if pr == nil {
 		c.Undecided("C11-R1", "parseRune", "-", "not found")
